@@ -479,7 +479,7 @@ func (f *STFS) OpenFile(name string, flag int, perm os.FileMode) (afero.File, er
 			)
 
 			createFile := func() error {
-				if !f.readOnly && flag&os.O_CREATE != 0 && flag&os.O_EXCL == 0 {
+				if !f.readOnly && flag&os.O_CREATE != 0 {
 					if parent, err := inventory.Stat(
 						f.metadata,
 
@@ -582,6 +582,9 @@ func (f *STFS) OpenFile(name string, flag int, perm os.FileMode) (afero.File, er
 		} else {
 			return nil, err
 		}
+	} else if !f.readOnly && flag&os.O_CREATE != 0 && flag&os.O_EXCL != 0 {
+		// The file must not exist yet
+		return nil, os.ErrExist
 	}
 
 	// Prevent opening a directory as writable
